@@ -2,9 +2,9 @@
 
 # model .vo files the extraction depends on (relative to coq/)
 MODEL_VO = ['gen/Consts.vo', 'gen/CrcTables.vo', 'model/Bytes.vo', 'model/Codec.vo', 'model/Order.vo', 'model/Crc.vo',
-            'model/Block.vo', 'model/Writer.vo', 'model/WriteLoop.vo', 'spec/Leb128.vo', 'spec/Parse.vo', 'model/Reader.vo', 'model/Verify.vo', 'model/Compress.vo', 'model/Heap.vo', 'model/Merger.vo']
+            'model/Block.vo', 'model/Writer.vo', 'model/WriteLoop.vo', 'spec/Leb128.vo', 'spec/Parse.vo', 'model/Reader.vo', 'model/Verify.vo', 'model/Compress.vo', 'model/Heap.vo', 'model/Merger.vo', 'model/Sorter.vo']
 # OCaml modules of the driver, in link order
-OCAML_MODULES = ['common', 'gen', 'enc', 'c16', 'wr', 'c20', 'rd', 'c19', 'c17', 'c12', 'c15', 'mg', 'main']
+OCAML_MODULES = ['common', 'gen', 'enc', 'c16', 'wr', 'c20', 'rd', 'c19', 'c17', 'c12', 'c15', 'mg', 'so', 'main']
 C_VARIANTS_SETUP = ('all',)
 EXTRA_BUILDS = []
 COQ_TIMEOUT = 3000
@@ -97,6 +97,14 @@ PROPS = {
         'trusted_base': ['test merge / dupsort callbacks and the user-defined source in ocaml/stubs.c'],
         'assumptions': ['PARTIAL: C05_statement is stated; proved are the seek decision (T05_seek_decision_partial) and computed histories (T05_examples)'],
         'explanation': 'next/seek histories and get/get_prefix/get_range on merger sources: implementation = model = cursor over the merged content (keys exactly, values as multisets of atoms).',
+    },
+    'C06': {
+        'engines': [{'name': 'so', 'timeout_quick': 600, 'timeout_thorough': 7200}],
+        'trusted_base': ['mkstemp shim: sorter.c compiled with -Dmkstemp=vp_mkstemp (records every template)', 'MTBL_VERIF hook: MIN_SORTER_MEMORY lowered to 1 so that multi-chunk sorts are reachable'],
+        'assumptions': ['PARTIAL: T06b (spill bound), T06d (refusal after iteration), T06c (chunks strictly sorted for any key-ordering sort function) are proved; the full output statement C06_statement needs the merger theorem of C04',
+                        'qsort: any function returning a key-sorted permutation (not assumed stable); the engine therefore compares merged values as multisets of atoms',
+                        'pools: the model is the sequential view; that pooled runs give the same entries is checked by running pools 0..8 (schedules: C13)'],
+        'explanation': 'Implementation vs model/Sorter.v vs specification (each distinct key once, ascending, value = fold of exactly the values added) over add sequences x max_memory (1 .. all in memory, spill-rule boundaries) x pools 0..8 x {iterator, mtbl_sorter_write}; mkstemp templates must lie in the configured directory; number of spills must equal the model\'s; add/write after iteration must be refused.',
     },
     'C12': {
         'engines': [{'name': 'c12', 'timeout_quick': 600, 'timeout_thorough': 7200}, {'name': 'c17', 'timeout_quick': 600, 'timeout_thorough': 7200}],
